@@ -151,8 +151,13 @@ def prepare(tier, scratch):
             # 10 minutes per case under load (measured); thorough tier only.  The *_imm1 shapes (finding F5) are not heavy and stay.
             DEFERRED.append("interp." + n)
             continue
+        if n.endswith("_imm1") and c["group"] == "ovf":
+            timeout = 900  # known finding F5: the counterexample trace through the interpreter state takes CBMC minutes to build
         obs.append(Ob("interp." + n, "C02/interp.c", defs=["MIR_DIRECT_DISPATCH"], cc=["-I" + scratch], entry=c["entry"],
                       loops={"eval#0": 14}, unwind=12, checks="functional", timeout=timeout,
+                      # h.h's bounded memcpy/memcmp/memset loops (the case code compares 64..96-byte buffers); "function#k" loop names
+                      # cannot be resolved in entry-selected binaries (no main), so CBMC loop ids are given directly
+                      unwindset={"memcmp.0": 98, "memcpy.0": 14, "memcpy.1": 98, "memset.0": 14, "memset.1": 98, c["entry"] + ".0": 14},
                       solver=solver, object_bits=10,
                       paths=(c["group"] in ("branch", "ovf") or n.startswith("fpb_")),
                       sample="interpreter: " + c["sample"]))
